@@ -161,9 +161,11 @@ def eval_terms(tag, imports, exprs, shard=200, timeout=600, jobs=12, preamble=''
         results = list(ex.map(lambda p: _run_coqc(p, timeout), paths))
     # a shard that ran out of time (machine under load / a few very large terms) is re-run alone, once, with a generous limit:
     # a slow evaluation must never be mistaken for a broken model
-    for k, (p, res) in enumerate(zip(paths, results)):
-        if res[0] == 124:
-            results[k] = _run_coqc(p, max(3600, 6 * timeout))
+    slow = [k for k, res in enumerate(results) if res[0] == 124]
+    if slow:
+        with ThreadPoolExecutor(max_workers=max(1, min(jobs, len(slow)))) as ex:
+            for k, res in zip(slow, ex.map(lambda k_: _run_coqc(paths[k_], max(3600, 6 * timeout)), slow)):
+                results[k] = res
     out = []
     for p, sh, (rc, so, se, dt) in zip(paths, shards, results):
         if rc != 0:
